@@ -141,11 +141,12 @@ def check_handle(recipe):
     res = []
     names = free_names(recipe)
     val = K.sym_val(names["vars"])
-    for dec, labels, pc, got in K.explore(lambda: _get(recipe, val), max_paths=20):
+    for prefetch in (0, 1, 2):
+      for dec, labels, pc, got in K.explore(lambda: _get(recipe, val, prefetch), max_paths=20):
         ref = Ref(val, diff=0)
         want = getattr(ref, kind_of(recipe))(recipe)
-        what = f"Solution[{K.shape(recipe, 4)}]"
-        payload = dict(kind="handle", recipe=K.enc(recipe))
+        what = f"Solution[{K.shape(recipe, 4)}]" + (" after other views of the same containers were retrieved from the same Solution" if prefetch else "")
+        payload = dict(kind="handle", recipe=K.enc(recipe), prefetch=prefetch)
         if isinstance(got, Exception):
             res.append(violation(f"C07|handle-raises|{K.shape(recipe, 4)}", f"{what} raises {type(got).__name__}: {got}", payload))
             continue
@@ -158,10 +159,28 @@ def check_handle(recipe):
     return res
 
 
-def _get(recipe, val):
+def _get(recipe, val, prefetch=False):
     from optyx.solution import Solution, SolverStatus
     b, h = K.build_recipe(recipe, val)
     sol = Solution(status=SolverStatus.OPTIMAL, objective_value=0.0, values=dict(val))
+    if prefetch:
+        # the SAME Solution object is first asked for sibling views of every declared container (whole, reversed,
+        # whole-span slice, strided; rows / columns / transposes / flipped matrices): many of them print alike
+        from optyx import MatrixVariable, VectorVariable
+        for o in list(b.objs.values()):
+            sibs = []
+            try:
+                if isinstance(o, VectorVariable):
+                    sibs = [o, o[::-1], o[0:len(o)], o[::2], o[1:]] if len(o) > 1 else [o]
+                elif isinstance(o, MatrixVariable):
+                    sibs = [o, o[::-1, :], o[:, ::-1], o.T, o[0, :], o[:, 0], o[0, ::-1], o[0:1, :], o[:, 0:1]]
+            except Exception:  # noqa: BLE001
+                pass
+            for sb in (sibs if prefetch == 1 else sibs[::-1]):
+                try:
+                    sol[sb]
+                except Exception:  # noqa: BLE001
+                    pass
     try:
         out = sol[h]
         first = h[0] if kind_of(recipe) == "V" else h[0, 0]
@@ -203,7 +222,7 @@ def replay(payload):
         import random
         rng = random.Random(3)
         val = {n: rng.uniform(-2, 2) for n in names["vars"]}
-        got = _get(recipe, val)
+        got = _get(recipe, val, int(payload.get("prefetch") or 0))
         ref = Ref(val, diff=0)
         want = getattr(ref, kind_of(recipe))(recipe)
         if isinstance(got, Exception):
